@@ -1333,8 +1333,11 @@ fn execute_multi_thread_files(mut stdout: io::StdoutLock, args: &Opts) {
 		write!(stdout, "{json}").ok();
 		return
 	}
-	for (path, contents) in results {
-		let output = format_output(args, contents);
+	// Format everything first: a formatting error must not leave some of the files already rewritten
+	let results = results.into_iter()
+		.map(|(path, contents)| (path, format_output(args, contents)))
+		.collect::<Vec<_>>();
+	for (path, output) in results {
 
 		if args.edit_inplace {
 			if args.backup_files {
